@@ -77,8 +77,18 @@ func abut(a, b string) bool { return CanAbut(a, b) }
 func AbutSafe(a, b string) bool { return CanAbut(a, b) }
 
 type speller struct {
-	mode SpellMode
-	out  []string
+	mode     SpellMode
+	quoteAll bool // spell every identifier (fields, dotted names, hash keys) as a quoted identifier
+	out      []string
+}
+
+// TokensQuoted is Tokens with every identifier written as a quoted identifier
+// (function names stay unquoted: they are not identifiers of the data). The
+// parse must be the same as for the unquoted spelling.
+func TokensQuoted(e *Expr, mode SpellMode) []string {
+	sp := &speller{mode: mode, quoteAll: true}
+	sp.expr(e)
+	return sp.out
 }
 
 func (sp *speller) emit(t ...string) { sp.out = append(sp.out, t...) }
@@ -152,7 +162,7 @@ func (sp *speller) free(e *Expr) {
 func (sp *speller) expr(e *Expr) {
 	switch e.K {
 	case KField:
-		if e.Quoted {
+		if e.Quoted || sp.quoteAll {
 			if e.QSrc != "" {
 				sp.emit(`"` + e.QSrc + `"`)
 			} else {
@@ -248,7 +258,7 @@ func (sp *speller) multiHash(e *Expr) {
 			sp.emit(",")
 		}
 		k := e.Keys[i]
-		if k.Quoted || !IsUnquotedIdent(k.Name) {
+		if k.Quoted || sp.quoteAll || !IsUnquotedIdent(k.Name) {
 			sp.emit(QuotedLexeme(k.Name))
 		} else {
 			sp.emit(k.Name)
@@ -316,7 +326,7 @@ func (sp *speller) step(s Step, bare bool) {
 	switch s.K {
 	case SField:
 		dot()
-		if s.Quoted || !IsUnquotedIdent(s.Name) {
+		if s.Quoted || sp.quoteAll || !IsUnquotedIdent(s.Name) {
 			sp.emit(QuotedLexeme(s.Name))
 		} else {
 			sp.emit(s.Name)
